@@ -21,6 +21,7 @@ KNOWN-FINDING while the entry is listed open in known_findings.json, VIOLATION w
 case otherwise.  On the directed cases record time must equal replay time."""
 import json
 import os
+import random
 import re
 import sys
 from concurrent.futures import ThreadPoolExecutor
@@ -525,6 +526,111 @@ def doc_spec(recs, o):
     return out
 
 
+# ------------------------------------------------------- the manual, for -C with -t / time=
+def is_caller_time(o):
+    """option sets made of -C (caller triggers) and -t / time= triggers only"""
+    return bool(o.C) and not (o.F or o.N or o.H or o.D is not None or o.r or o.trace_off or o.no_libcall or o.plt) and \
+        all(a in ("time", "caller") for _, acts in o.T for a, _ in acts)
+
+
+def doc_spec_caller(recs, o):
+    """uftrace-replay.md: -C f = f and the functions on the call chains that lead to f (not what f calls);
+    -t n / f@time=n = not the calls that run under n (time= holds for the function and what it calls).  Together,
+    as at record time: a call of a -C function is selected iff it ran at least the active threshold, every other
+    call iff a selected call is below it.  Independent of the Lean `spec` (Appendix D of DESIGN.md), which must give
+    the same.  Closed forests only."""
+    cset = set(o.C) | {fn for fn, acts in o.T if any(a == "caller" for a, _ in acts)}
+    tthr = {fn: v for fn, acts in o.T for a, v in acts if a == "time"}
+    roots, stack = [], []
+    for typ, dep, fn, t in recs:
+        if typ == "E":
+            n = {"fn": fn, "t0": t, "t1": None, "kids": []}
+            (stack[-1]["kids"] if stack else roots).append(n)
+            stack.append(n)
+        else:
+            stack.pop()["t1"] = t
+
+    def walk(n, thr, depth):
+        thr2 = tthr.get(n["fn"], thr)
+        kids = []
+        for k in n["kids"]:
+            kids += walk(k, thr2, depth + 1)
+        if not kids and not (n["fn"] in cset and n["t1"] - n["t0"] >= thr2):
+            return []
+        return ["E:%d:%d:%d" % (depth, n["fn"], n["t0"])] + kids + ["X:%d:%d:%d" % (depth, n["fn"], n["t1"])]
+    out = []
+    for r in roots:
+        out += walk(r, o.t or 0, 0)
+    return out
+
+
+def fn_durations(recs):
+    """fn -> durations of its calls, fn -> functions that enclose one of its calls (closed forest)"""
+    durs, encl, stack = {}, {}, []
+    for typ, dep, fn, t in recs:
+        if typ == "E":
+            encl.setdefault(fn, set()).update(f for f, _ in stack)
+            stack.append((fn, t))
+        else:
+            f, t0 = stack.pop()
+            durs.setdefault(f, []).append(t - t0)
+    return durs, encl
+
+
+def around(ds):
+    """thresholds around the durations ds: each duration, one more, one less"""
+    return sorted({x for d in ds for x in (d - 1, d, d + 1) if x >= 1})
+
+
+CT_DIRECTED = [("E", 0, 0, 1100), ("E", 1, 1, 1110), ("E", 2, 2, 1112), ("X", 2, 2, 1115), ("X", 1, 1, 1120),
+               ("E", 1, 3, 1130), ("E", 2, 1, 1135), ("X", 2, 1, 1140), ("X", 1, 3, 1150),
+               ("E", 1, 1, 1160), ("E", 2, 4, 1165), ("E", 3, 1, 1170), ("X", 3, 1, 1171), ("X", 2, 4, 1180), ("X", 1, 1, 1190),
+               ("X", 0, 0, 1200), ("E", 0, 5, 1210), ("E", 1, 1, 1215), ("X", 1, 1, 1215), ("X", 0, 5, 1230)]
+
+
+def caller_time_cases(crng, tier, n):
+    """-C f x -t / time= thresholds around the durations of f's calls.  Directed: f0{ f1{f2}:10 f3{ f1:5 }:20
+    f1{ f4{ f1:1 }:15 }:30 }:100 f5{ f1:0 }:20; random: forests of the usual generator, f a function that occurs,
+    thresholds one below / at / one above the durations of its calls (as -t, as f@time=, as time= on an enclosing
+    function), a second -C function, a second threshold"""
+    cases = []
+
+    def add(recs, C_, t=None, T=()):
+        o = ROpts()
+        o.C, o.t, o.T = list(C_), t, [(fn, list(acts)) for fn, acts in T]
+        cases.append({"recs": recs, "opts": o, "family": "caller-time"})
+    for t in (1, 2, 5, 6, 10, 11, 30, 31, 100, 101):
+        add(CT_DIRECTED, [1], t)
+    for t in (6, 11, 31):
+        add(CT_DIRECTED, [1], None, [(1, [("time", t)])])
+    add(CT_DIRECTED, [1], None, [(3, [("time", 6)])])
+    add(CT_DIRECTED, [1], 11, [(3, [("time", 2)])])
+    add(CT_DIRECTED, [1], 2, [(4, [("time", 5)])])
+    add(CT_DIRECTED, [4], 16)
+    add(CT_DIRECTED, [1, 4], 11)
+    add(CT_DIRECTED, [2], 3, [(1, [("caller", None), ("time", 20)])])
+    for _ in range(n):
+        recs, _ops = forest_recs(crng, tier)
+        durs, encl = fn_durations(recs)
+        if not durs:
+            continue
+        # prefer a function that is called from somewhere (it has callers to show or to drop)
+        nested = sorted(f for f in durs if encl.get(f))
+        f = crng.choice(nested or sorted(durs))
+        ths = around(durs[f]) or [1]
+        add(recs, [f], crng.choice(ths))
+        g = crng.choice(sorted(encl.get(f) or {f}) + [f])
+        add(recs, [f], None, [(g, [("time", crng.choice(ths))])])
+        f2 = crng.choice(sorted(durs))
+        ths2 = around(durs[f] + durs[f2])
+        T = []
+        if crng.random() < 0.5:
+            g2 = crng.choice(sorted(durs))
+            T = [(g2, [("time", crng.choice(around(durs[g2]) or [1]))])]
+        add(recs, sorted({f, f2}), crng.choice(ths2), T)
+    return cases
+
+
 # ---------------------------------------------------------------- running -------------
 COMMANDS = ["replay", "script", "dump", "report", "graph", "dumpraw"]
 
@@ -718,6 +824,15 @@ def assess(case):
         if ref != exp:
             k = next((i for i, (a, b) in enumerate(zip(ref, exp)) if a != b), min(len(ref), len(exp)))
             bad.append(("documented-selection", ref[k:k + 3], exp[k:k + 3]))
+    if is_caller_time(o) and closed(recs):
+        exp = doc_spec_caller(recs, o)
+        if ref != exp:
+            k = next((i for i, (a, b) in enumerate(zip(ref, exp)) if a != b), min(len(ref), len(exp)))
+            bad.append(("documented-selection of -C with -t / time= (a call of the -C function that runs under the threshold "
+                        "is not selected, nor are the callers it alone would bring in): shown vs documented from record %d" % k,
+                        ref[k:k + 4], exp[k:k + 4]))
+        if "spec" in mo and mo["spec"] != exp:
+            mism.append(("Lean spec (Fstack.spec) vs the check's documented selection for -C x -t", mo["spec"][:12], exp[:12]))
     if "spec" in mo and not has_switch(o) and not o.r and not o.no_libcall:
         if mo["spec"] != mo["report"]:
             mism.append(("model spec vs model loop (theorem c07_replay_refines_spec)", mo["spec"][:12], mo["report"][:12]))
@@ -752,6 +867,7 @@ def rec_opts(rng, durs, boundary_ok=True):
 def to_ropts(o):
     r = ROpts()
     r.F, r.N, r.D, r.t = list(o.F), list(o.N), o.D, o.t
+    r.C = list(getattr(o, "C", []))
     r.T = [(fn, list(acts)) for fn, acts in o.T]
     return r
 
@@ -773,6 +889,7 @@ def record_vs_replay(ctx, uft, root, nforest, boundary_ok=True):
         return None, log
     sizes = mcheck.sym_sizes(exe)
     rng = ctx.rng
+    crng = random.Random("C07-caller-time-record-%d" % ctx.seed)     # own state: the cases below stay what they were
     cases = []
     # directed: f0{ f1{ f2{ f3{ f4 }}} f5{ f6 } f1{ f2{ f3{ f4 }}} } with -T f3@trace_off -T f5@trace_on and filters that
     # do (-D 3, -D 2, depth= trigger, -F f1 -D 2) or do not (-D 4, none) reject the trace_off function f3 itself.  Rejected:
@@ -813,6 +930,26 @@ def record_vs_replay(ctx, uft, root, nforest, boundary_ok=True):
             o = rec_opts(rng, durs, boundary_ok)
             cases.append({"opts": o, "script": script, "kind": kind, "forest": i, "durs": durs,
                           "role": "boundary" if (o.t in durs) else "filtered"})
+        # -C f with -t around the durations of f's calls, at both times
+        if i % 2 == 0:
+            frecs, st3, now3 = [], [], 0
+            for op in ops:
+                if op[0] == "T":
+                    now3 = op[1]
+                elif op[0] == "E":
+                    frecs.append(("E", len(st3), op[1], now3))
+                    st3.append(op[1])
+                else:
+                    frecs.append(("X", len(st3) - 1, st3.pop(), now3))
+            fd, encl = fn_durations(frecs)
+            if fd:
+                nested = sorted(f for f in fd if encl.get(f))
+                f = crng.choice(nested or sorted(fd))
+                ths = [t for t in around(fd[f]) if boundary_ok or t not in durs] or [1]
+                o = mcgen.Opts()
+                o.C, o.t = [f], crng.choice(ths)
+                cases.append({"opts": o, "script": script, "kind": kind, "forest": i, "durs": durs, "caller_time": True,
+                              "role": "boundary" if (o.t in durs) else "filtered"})
         # S4 probe: -t equal to one of the durations
         if durs and i % 4 == 0:
             o = mcgen.Opts()
@@ -1164,6 +1301,10 @@ def run(ctx):
             cases.append({"recs": recs, "opts": rand_ropts(rng, times, core=(k == 0), present=present)})
         for k in range(2):
             cases.append({"recs": full, "opts": rand_switch_opts(rng, full), "switch": True})
+    # -C f x -t / time= around the durations of f's calls (own generator state: the cases above stay what they were)
+    crng = random.Random("C07-caller-time-%d" % ctx.seed)
+    ctcases = caller_time_cases(crng, ctx.tier, 60 if ctx.tier == "quick" else 1500)
+    cases += ctcases
     for i, c in enumerate(cases):
         c["idx"] = i
     evaluations = disagreements = monitor_fail = replays = 0
@@ -1177,6 +1318,10 @@ def run(ctx):
               "failures_in_switch_class": 0}
     nolib_hits = []
     samples = []
+    ctstat = {"cases": len(ctcases), "directed": sum(c["recs"] is CT_DIRECTED for c in ctcases),
+              "a_call_of_the_C_function_runs_under_the_threshold": 0, "a_call_of_the_C_function_is_selected": 0,
+              "with_time_trigger": 0, "failures": 0}
+    ctrep = 0
     for lo in range(0, len(cases), 600):
         chunk = evaluate(ctx, uft, cases[lo:lo + 600], root)
         for case in chunk:
@@ -1214,7 +1359,17 @@ def run(ctx):
                 nolib_hits.append(case)
             if len(samples) < 3 and case["idx"] % 53 == 20:
                 samples.append({"cli": cli_args(o), "records": toks(case["recs"])[:16], "replay_shows": case["impl"]["replay"][1][:10]})
-            if (mism or bad) and replays < 3:
+            if case.get("family") == "caller-time":
+                exp = doc_spec_caller(case["recs"], o)
+                sel_c = sum(1 for t in exp if t[0] == "E" and int(t.split(":")[2]) in o.C)
+                all_c = sum(1 for r in case["recs"] if r[0] == "E" and r[2] in o.C)
+                ctstat["a_call_of_the_C_function_runs_under_the_threshold"] += sel_c < all_c
+                ctstat["a_call_of_the_C_function_is_selected"] += sel_c > 0
+                ctstat["with_time_trigger"] += bool(o.T)
+                ctstat["failures"] += bool(mism or bad)
+            ct_extra = case.get("family") == "caller-time" and bool(bad) and replays >= 3 and ctrep < 2
+            ctrep += ct_extra
+            if (mism or bad) and (replays < 3 or ct_extra):
                 replays += 1
                 C.violation(ctx, "case%d" % case["idx"], {
                     "kind": "property-violated-on-implementation" if bad else "model-code-disagreement",
@@ -1297,9 +1452,30 @@ def run(ctx):
             if c["role"] == "traceoff":
                 rvr["trace_on_off_cases"] += 1
                 rvr["trace_off_proved_class_cases"] = rvr.get("trace_off_proved_class_cases", 0) + bool(c.get("proved_class"))
+            rvr["caller_x_time_cases"] = rvr.get("caller_x_time_cases", 0) + bool(c.get("caller_time"))
             if rc == 0 and rep == c["recorded"] and models_ok:
                 rvr["equal"] += 1
                 continue
+            if c.get("caller_time") and rc == 0 and rep != c["recorded"]:
+                pr = stream_recs(c["plain"])
+                if closed(pr) and c["recorded"] == doc_spec_caller(pr, to_ropts(c["opts"])):
+                    # the record-time trace is the documented selection of the unfiltered recording, replay shows other calls
+                    monitor_fail += 1
+                    rvr["caller_x_time_differs"] = rvr.get("caller_x_time_differs", 0) + 1
+                    if rvr["caller_x_time_differs"] <= 2:
+                        k = next((i for i, (a, b) in enumerate(zip(rep, c["recorded"])) if a != b), min(len(rep), len(c["recorded"])))
+                        C.violation(ctx, "rvr%d" % ji, {
+                            "kind": "property-violated-on-implementation",
+                            "what": "recording with -C f -t T gives the documented selection of the unfiltered recording; replaying "
+                                    "the unfiltered recording with -C f -t T shows different calls",
+                            "case": {"recs": list(c["plain"]), "opts": to_ropts(c["opts"]).describe(),
+                                     "cli": cli_args(to_ropts(c["opts"]))},
+                            "env": mcgen.to_env(c["opts"]), "hook": c["kind"], "script": c["script"][:300],
+                            "replay_args": cli_args(to_ropts(c["opts"])),
+                            "first_difference": {"index": k, "recorded": c["recorded"][k:k + 4], "replayed": rep[k:k + 4]},
+                            "fstack_model_agrees_with_replay": rep == c["replay_model"],
+                            "theorem": "c07_record_eq_replay / c07_time_filter_spec (Props/C07.lean)"})
+                    continue
             f7_shape = (c["role"] == "traceoff" and c["impl_cmp"] != c["model_cmp"] and
                         c.get("matches_prefix_F7_hook_model", False) and rc == 0 and rep == c["replay_model"])
             if f7_shape:
@@ -1387,8 +1563,13 @@ def run(ctx):
                 "--no-libcall with PLT symbols, --no-merge; 80%% of the option sets name only functions that occur in the trace), each "
                 "analysed by replay, script, dump --chrome, report, graph and raw dump (6 runs). Then H1->H3: forests recorded by the "
                 "real libmcount (-pg or -finstrument-functions hook) with and without -F/-N/-D/-t; the unfiltered recording is replayed "
-                "with the option. distinct = distinct (options, records)" % nprobe,
-        "input_distribution": dist, "trace_on_off_class": swstat, "several_tasks": mstat, "selection_outcomes": sel, "nolibcall_model_variant_matched": variants,
+                "with the option. Family -C f x -t / time=: a directed forest (calls of f of 0, 1, 5, 10, 30 ns at several depths, recursion) and "
+                "random forests with thresholds one below / at / one above the durations of f's calls (as -t, as time= trigger on f or "
+                "on an enclosing function, two -C functions), expected output = the documented selection (doc_spec_caller, checked "
+                "against the Lean Fstack.spec), and the same option sets at record time (real libmcount) against replay of the "
+                "unfiltered recording. distinct = distinct (options, records)" % nprobe,
+        "input_distribution": dist, "trace_on_off_class": swstat, "several_tasks": mstat, "selection_outcomes": sel, "caller_filter_x_time_filter_family": ctstat,
+        "nolibcall_model_variant_matched": variants,
         "model_code_disagreements": disagreements, "monitor_failures_on_impl": monitor_fail,
         "finding_nolibcall_cases": len(nolib_hits), "record_vs_replay": rvr, "samples": samples, "exhaustive": False,
     })
